@@ -53,7 +53,7 @@ def tlc_mc(ctx, cfg, timeout, what):
 def stats(ctx, traces):
     """Counts what the batch exercised (also the guard against a vacuous run)."""
     st = dict(cases=0, by_kind={}, by_src={}, with_http=0, two_hops=0, multi_page=0, link_followed=0, last_fallback=0,
-              declined=0, errors=0, **{'debug_error_after_items:' + k: 0 for k in ('repos', 'tags', 'refs')}, huge=0, huge_runs=0, huge_page_over_10000=0, paged_value_run_again=0, sub_with_start=0, unify=0, select=0, debug=0, escaped_start=0, requests=0, consumer_calls=0)
+              declined=0, errors=0, context_done_before_first_request=0, context_done_between_pages=0, context_done_other=0, referrers_unified_across_media_types=0, **{'debug_error_after_items:' + k: 0 for k in ('repos', 'tags', 'refs')}, huge=0, huge_runs=0, huge_page_over_10000=0, paged_value_run_again=0, sub_with_start=0, unify=0, select=0, debug=0, escaped_start=0, requests=0, consumer_calls=0)
     samples = []
     for t in traces:
         with open(t) as f:
@@ -93,6 +93,11 @@ def stats(ctx, traces):
                     st['declined'] += 1
                 if e['calls'] and e['calls'][-1]['e'] == 'err':
                     st['errors'] += 1
+                cs = e['calls']
+                if e['cut'] >= 0 and cs and cs[-1]['e'] == 'err' and 'CONTEXT' in cs[-1]['is']:
+                    st['context_done_before_first_request' if e['cut'] == 0 else ('context_done_between_pages' if len(cs) >= 2 else 'context_done_other')] += 1
+                if e['kind'] == 'refs' and 'unify' in stack and 'mem:alt' in stack and stack.count('mem') > stack.count('mem:alt'):
+                    st['referrers_unified_across_media_types'] += 1
                 for run in [e] + e['more']:
                     cs = run['calls']
                     if 'debug' in stack and len(cs) >= 2 and cs[-1]['e'] == 'err':
@@ -119,6 +124,7 @@ def guard(ctx, st):
     meaningful once the batch has been accepted: a defect may be the reason)."""
     need = ('multi_page', 'link_followed', 'last_fallback', 'declined', 'errors', 'sub_with_start', 'unify', 'select', 'two_hops', 'escaped_start',
             'paged_value_run_again', 'huge', 'huge_page_over_10000',
+            'context_done_before_first_request', 'context_done_between_pages', 'referrers_unified_across_media_types',
             'debug_error_after_items:repos', 'debug_error_after_items:tags', 'debug_error_after_items:refs')
     missing = [k for k in need if not st[k]]
     if missing:
@@ -225,6 +231,8 @@ def run(ctx):
         'ociunify: sequential read policy; no unifier below a unifier, and for referrers at most one member with HTTP hops (request order of concurrent members is not determined)',
         'Select/Sub for tags and referrers admit/rename the listed repository only (C12/C13 cover the rest)',
         'contents do not change during a listing (C08 covers concurrency)',
+        'consumer contexts: cancelled / past their deadline only between consumer calls (never while a request is in flight); before the listing exists only on stacks without a unifier',
+        'referrers held by two unified registries under different media types: same bytes pushed as image manifest and as index (the only descriptor attribute ocimem lets differ for one digest)',
         'sources that fail part-way are harness-made (lFailing: DENIED on reaching an element >= at); what such a source lists at all is the part before that element',
         'universes > 10^4 items: one hop over ocimem only, items t00001.., calls recorded as runs of consecutive ranks (lossless), model = closed form Big (checked equal to Stream by TLC on the small sweep)',
         'TLC + community modules; harness JSON projection'
